@@ -43,11 +43,6 @@ package chain
 //@   trusted decodes into the value v points to; touches nothing else reachable by the functions under contract except through v
 //@   modifies everything
 
-//@ extern github.com/drand/drand/v2/crypto.GetSchemeByID(id) (s, err)
-//@   trusted table lookup of the five supported schemes
-//@   modifies nothing
-//@   ensures err == nil ==> s != nil
-
 //@ func (*Info).UnmarshalJSON(i, data) (err)
 //@   props C17 C20
 //@   ensures [C17:decoded-info-with-mismatching-embedded-hash-is-rejected] err == nil && v2Str.ChainHash != "" && common.validPeriod(i.Period) ==> hexOf(chainHashSpec(i)) == v2Str.ChainHash
